@@ -3,6 +3,8 @@ use mc_core::Ctx;
 
 mod c07;
 mod c44;
+mod explore;
+mod ring;
 
 fn main() {
     let ctx = Ctx::from_args();
